@@ -114,7 +114,10 @@ func (g *replayGen) gen(t types.Type, v *Term, depth int) valFn {
 		}
 	case *types.Slice:
 		if !isByte(u.Elem()) {
-			return bad("slice of " + u.Elem().String() + " parameters are not reconstructed")
+			// not reconstructed: the model is constrained to the nil slice
+			z := f.Int(0)
+			g.wf = append(g.wf, f.And(f.Eq(f.SlRef(v), z), f.Eq(f.SlOff(v), z), f.Eq(f.SlLen(v), z), f.Eq(f.SlCap(v), z)))
+			return func() (string, bool) { return fmt.Sprintf("%s(nil)", g.typeStr(t)), true }
 		}
 		ref, off, ln, cp := g.q(f.SlRef(v)), g.q(f.SlOff(v)), g.q(f.SlLen(v)), g.q(f.SlCap(v))
 		reg := g.q(c.regionOf(g.st0, SB, f.SlRef(v)))
@@ -346,7 +349,11 @@ func (r *FnResult) Refute(e *Engine, i int, dir string) *ReplayResult {
 	for attempt := 0; attempt < 2; attempt++ {
 		extra := append(append([]*Term{}, g.wf...), g.small...)
 		if attempt == 1 {
-			extra = g.wf
+			extra = append([]*Term{}, g.wf...)
+		}
+		if o.Aux != nil {
+			// look for an input that requests an allocation the replay can observe (8 GiB and more)
+			extra = append(extra, c.f.Le(c.f.IntB(pow2(33)), o.Aux))
 		}
 		script := r.Script.NativeText(i, extra, g.queries)
 		var solver string
